@@ -99,6 +99,52 @@ PROPS["C09"] = dict(
     design="DESIGN.md §4 C09",
 )
 
+PROPS["C10"] = dict(
+    technique="static analysis: ownership/freshness of plan objects (no attribute or item store on a non-fresh plan object), copy-before-mutate on plan graphs, counter typestate of the name generators, who-may-delete",
+    text=(
+        "Decides that outside constructors no field of an Array, Plan, PrimitiveOperation, BlockwiseSpec, "
+        "CubedArrayProxy or CubedPipeline is assigned or mutated in place on an object the function did not "
+        "create, that every function mutating a plan graph works on a copy (including the resume marks on the "
+        "lru_cache-shared frozen graph), that generated names grow monotonically from a single-writer counter, "
+        "and that the only deletion in library code removes the per-process context directory. The one "
+        "function that violates the ownership rule (_store_array, lazy-source branch) is a reproduced known "
+        "finding. API-call histories are unbounded; the rule covers all of them through the sites that can "
+        "change a built array."
+    ),
+    note="Task-side purity (inputs never modified) is decided under C06 (TASK-PURE-1, WRITE-REGION-1). Does not decide arbitrary histories beyond the effects of these sites.",
+    design="DESIGN.md §4 C10",
+)
+PROPS["C20"] = dict(
+    technique="static analysis: name-generator format and merge-point inspection (identity by generated name), counter typestate, per-process context directory",
+    text=(
+        "Decides the identity clause: node identity in nx.compose_all is the generated name, so either names "
+        "carry a per-process token or the merge point must detect two different nodes under one name. Both "
+        "are visible in the shape of gensym() and arrays_to_dag(). Today neither holds (reproduced known "
+        "finding F9); any further generator or merge point that breaks uniqueness is reported separately. "
+        "Also decides that counters are monotone single-writer and that intermediate data lives under a "
+        "per-process uuid directory."
+    ),
+    note="Does not decide pickling fidelity of closures or lru_cache behaviour after unpickling (needs execution).",
+    design="DESIGN.md §4 C20",
+)
+
+PROPS["C12"] = dict(
+    technique="static analysis: provenance (def-use) of the declared shape/dtype/chunks and of the backing array object through the op constructors and the primitive",
+    text=(
+        "Decides the provenance half of the property: CoreArray reads shape/dtype/chunks once from the "
+        "backing array it is given and never reassigns them; both op constructors wrap exactly the target "
+        "array the primitive created from the (shape, dtype, chunks) triple they computed, with shape derived "
+        "from those chunks; multiple outputs are paired positionally; and no code swaps the backing array "
+        "afterwards (the one site that does, _store_array, is known finding F5)."
+    ),
+    note=(
+        "Does NOT decide the second half — that every block a function returns has the shape of its region, "
+        "nor result-dtype rules: those are facts about NumPy results with no shape-of-code oracle "
+        "(DESIGN.md §4 C12)."
+    ),
+    design="DESIGN.md §4 C12",
+)
+
 CLAIMED = sorted(PROPS)
 
 NOT_APPLICABLE = {
